@@ -278,6 +278,8 @@ impl State {
         if self.stack.len() < self.max_stack {
             let nsave = self.nsave;
             self.stack.push(Branch { pc, ix, nsave });
+            #[cfg(fancy_regex_verif)]
+            verif::note_depth(self.stack.len());
             self.nsave = 0;
             self.trace_stack("push");
             Ok(())
@@ -438,6 +440,8 @@ pub(crate) fn run(
     option_flags: u32,
     options: &RegexOptions,
 ) -> Result<Option<Vec<usize>>> {
+    #[cfg(fancy_regex_verif)]
+    verif::reset_stats();
     let mut state = State::new(prog.n_saves, MAX_STACK, option_flags);
     let mut inner_slots: Vec<Option<NonMaxUsize>> = Vec::new();
     let look_matcher = LookMatcher::new();
@@ -451,6 +455,8 @@ pub(crate) fn run(
     loop {
         // break from this loop to fail, causes stack to pop
         'fail: loop {
+            #[cfg(fancy_regex_verif)]
+            verif::count_step();
             #[cfg(feature = "std")]
             if option_flags & OPTION_TRACE != 0 {
                 println!("{}\t{} {:?}", ix, pc, prog.body[pc]);
@@ -726,6 +732,8 @@ pub(crate) fn run(
         }
 
         backtrack_count += 1;
+        #[cfg(fancy_regex_verif)]
+        verif::count_backtrack();
         if backtrack_count > options.backtrack_limit {
             return Err(Error::RuntimeError(RuntimeError::BacktrackLimitExceeded));
         }
@@ -733,6 +741,114 @@ pub(crate) fn run(
         let (newpc, newix) = state.pop();
         pc = newpc;
         ix = newix;
+    }
+}
+
+/// Verification hooks (only with `--cfg fancy_regex_verif`): per-run statistics and a thin
+/// wrapper that lets the private backtracking state be driven from outside.
+#[cfg(fancy_regex_verif)]
+pub mod verif {
+    use super::State;
+    use alloc::vec::Vec;
+    use std::cell::Cell;
+
+    std::thread_local! {
+        static STEPS: Cell<u64> = Cell::new(0);
+        static BACKTRACKS: Cell<u64> = Cell::new(0);
+        static DEPTH: Cell<u64> = Cell::new(0);
+    }
+
+    pub(super) fn reset_stats() {
+        STEPS.with(|c| c.set(0));
+        BACKTRACKS.with(|c| c.set(0));
+        DEPTH.with(|c| c.set(0));
+    }
+    pub(super) fn count_step() {
+        STEPS.with(|c| c.set(c.get() + 1));
+    }
+    pub(super) fn count_backtrack() {
+        BACKTRACKS.with(|c| c.set(c.get() + 1));
+    }
+    pub(super) fn note_depth(d: usize) {
+        DEPTH.with(|c| {
+            if (d as u64) > c.get() {
+                c.set(d as u64)
+            }
+        });
+    }
+
+    /// Statistics of the last VM run on this thread: (instructions executed, backtracks
+    /// taken, peak branch-stack depth).
+    pub fn stats() -> (u64, u64, u64) {
+        (
+            STEPS.with(|c| c.get()),
+            BACKTRACKS.with(|c| c.get()),
+            DEPTH.with(|c| c.get()),
+        )
+    }
+
+    /// The compile-time stack cap.
+    pub fn max_stack() -> usize {
+        super::MAX_STACK
+    }
+
+    /// Wrapper over the VM's private backtracking state.
+    #[allow(missing_debug_implementations)]
+    pub struct VerifState(State);
+
+    impl VerifState {
+        /// New state with `n_saves` slots and the given branch-stack cap.
+        pub fn new(n_saves: usize, max_stack: usize) -> VerifState {
+            VerifState(State::new(n_saves, max_stack, 0))
+        }
+        /// Create an alternative (push a backtrack branch); false on stack overflow.
+        pub fn push(&mut self, pc: usize, ix: usize) -> bool {
+            self.0.push(pc, ix).is_ok()
+        }
+        /// Abandon the current alternative (pop a branch).
+        pub fn pop(&mut self) -> (usize, usize) {
+            self.0.pop()
+        }
+        /// Write a slot.
+        pub fn save(&mut self, slot: usize, val: usize) {
+            self.0.save(slot, val)
+        }
+        /// Read a slot.
+        pub fn get(&self, slot: usize) -> usize {
+            self.0.get(slot)
+        }
+        /// Push onto the auxiliary stack.
+        pub fn stack_push(&mut self, val: usize) {
+            self.0.stack_push(val)
+        }
+        /// Pop from the auxiliary stack.
+        pub fn stack_pop(&mut self) -> usize {
+            self.0.stack_pop()
+        }
+        /// Number of pending alternatives.
+        pub fn backtrack_count(&self) -> usize {
+            self.0.backtrack_count()
+        }
+        /// Discard alternatives above `count`.
+        pub fn backtrack_cut(&mut self, count: usize) {
+            self.0.backtrack_cut(count)
+        }
+        /// All current slot values.
+        pub fn saves(&self) -> Vec<usize> {
+            self.0.saves.clone()
+        }
+        /// Pending alternatives, oldest first, as (pc, ix, nsave).
+        pub fn branches(&self) -> Vec<(usize, usize, usize)> {
+            self.0.stack.iter().map(|b| (b.pc, b.ix, b.nsave)).collect()
+        }
+        /// Undo log, oldest first, as (slot, value).
+        pub fn oldsave(&self) -> Vec<(usize, usize)> {
+            self.0.oldsave.iter().map(|s| (s.slot, s.value)).collect()
+        }
+        /// Length of the current undo segment.
+        pub fn nsave(&self) -> usize {
+            self.0.nsave
+        }
     }
 }
 
